@@ -234,8 +234,8 @@ TIMES = [(0, 0, 0, ""), (12, 0, 0, ""), (23, 59, 59, ""), (23, 59, 59, "99999999
 TIMES_MORE = [(11, 59, 59, "999"), (12, 59, 59, ""), (0, 0, 0, "000000001"), (13, 0, 0, ""), (0, 59, 59, "5")]
 ZONES = ["UTC", "US/Pacific", "Europe/London", "Asia/Kolkata", "Pacific/Apia"]
 # kind 0: none, 1: fixed (seconds), 2: named zone (index into ZONES)
-OFFSETS = [(0, 0), (1, 0), (1, -14400), (1, 19800), (1, 50400), (1, -12600), (2, 2), (2, 4)]
-OFFSETS_MORE = [(1, -1800), (1, 45900), (1, -43200), (1, 86340), (1, -86340), (2, 1), (2, 3), (2, 5)]
+OFFSETS = [(0, 0), (1, 0), (1, -14400), (1, 19800), (1, 50400), (1, -12600), (1, -1800), (1, -60), (2, 2), (2, 4)]
+OFFSETS_MORE = [(1, 1800), (1, 45900), (1, -43200), (1, 86340), (1, -86340), (2, 1), (2, 3), (2, 5)]
 WRITERS = ["isoT", "iso", "isodate", "ord", "mdy12", "mdy24", "mdy", "ctime", "ymd12", "ymd24"]
 CONV_OFFSETS = ["+00:00", "-04:00", "+05:30", "+14:00", "-03:30", "+23:59", "-23:59", "+24:00", "-24:00", "+99:00", "-00:00", "-99:59"]
 ANCHORS = ["0001-01-01 00:00:00", "1970-01-01T00:00:00 +00:00", "2000-02-29 23:59:59.999999999 -04:00",
